@@ -1,15 +1,24 @@
 """C01 — acknowledged writes survive a crash at any moment, with their latest values.
-Mode A: TLC checks specs/Wal.tla exhaustively (Durable, WalBeforeAck, RemoveAfterRename) for the design
-(Dev = {}) and confirms that each as-implemented deviation (known findings) and each mutation seed is
-caught by the invariants. Mode B: TLC-generated client histories are run on a real engine under the
-file-system recorder; a crash image is frozen after file-system mutations (all of them in the thorough
-tier, plus torn-tail variants and crashes inside recovery), restored, re-opened the way a restarted store
-does it, and the recovered contents are compared with the specification's expectation.
-Mode C: the recorded file-system event order of every run is validated by TLC against TraceWal.tla."""
+Mode A: TLC checks specs/Wal.tla exhaustively (Durable - read through the series index -, WalBeforeAck, IndexOrLog,
+RemoveAfterRename, IndexBeforeWalRemove) for the design (Dev = {}) and confirms that each as-implemented
+deviation (known findings) and each mutation seed is caught by the invariants. Mode B: TLC-generated client
+histories (writes - also writes that start while a flush stands at one of its steps -, forced flushes and
+automatic flushes started by the shard's own snapshot ticker, drops) are run on a real engine under the
+file-system recorder; a crash image is frozen after file-system mutations (all of them in the thorough tier, plus
+the durable points of the series index, torn-tail variants and crashes inside recovery) without the harness ever
+flushing the series index itself, restored, re-opened the way a restarted store does it, and the recovered
+contents are compared with the specification's expectation.
+Mode C: the recorded file-system event order of every run (index flushes included) is validated by TLC against
+TraceWal.tla."""
 import json, os, time
+import concurrent.futures as cf
 import vlib
 
 PROP = "C01"
+if "-Xmx" not in os.environ.get("JAVA_TOOL_OPTIONS", ""):
+    # several TLC processes run side by side (deviations, trace validation); the largest model (5 M states,
+    # fingerprints off-heap, queue on disk) needs far less than the JVM's default of a quarter of the RAM
+    os.environ["JAVA_TOOL_OPTIONS"] = (os.environ.get("JAVA_TOOL_OPTIONS", "") + " -Xmx4g").strip()
 TOLERATED = []   # cases whose harness process died with the signature of open finding F-C04-1 (c)
 DEVS_MUST_FAIL = {
     '{"rr_from_0"}': "Durable",
@@ -17,40 +26,109 @@ DEVS_MUST_FAIL = {
     '{"ack_before_wal"}': "WalBeforeAck",
     # removing the log before the rename also un-protects an acknowledged write: with several TLC workers either
     # property may be the first one reported
-    '{"remove_wal_before_rename"}': ("RemoveAfterRename", "WalBeforeAck", "Durable"),
+    '{"remove_wal_before_rename"}': ("RemoveAfterRename", "WalBeforeAck", "Durable", "IndexOrLog", "IndexBeforeWalRemove", "FilesIndexed"),
+    # series index: a snapshot started by the ticker skips the synchronous index flush / the index is flushed only
+    # after the log files are gone. FilesIndexed breaks at the first rename, the ordering property at the log removal,
+    # the reachability invariants follow (a crash is needed for Durable); DEVS_ISOLATED checks the latter on their own
+    '{"auto_flush_skips_index"}': ("FilesIndexed", "IndexBeforeWalRemove", "IndexOrLog", "Durable"),
+    '{"index_flush_after_wal_remove"}': ("FilesIndexed", "IndexBeforeWalRemove", "IndexOrLog", "Durable"),
 }
+# the same two seeds must also break, each checked alone: Durable itself (reads go through the index, a crash is needed)
+# and the ordering property IndexBeforeWalRemove - neither is vacuous
+DEVS_ISOLATED = [(d, inv) for d in ('{"auto_flush_skips_index"}', '{"index_flush_after_wal_remove"}')
+                 for inv in ("Durable", "IndexBeforeWalRemove")]
 
 
 def mode_a(tier):
     cfg = "Wal.exh.quick.cfg" if tier == "quick" else "Wal.exh.thorough.cfg"
-    r = vlib.run_tlc("WalMC", cfg, timeout=3000, coverage=False)
-    vlib.tlc_must_pass(r, cfg)
-    stats = {"cfg": cfg, "generated": r["generated"], "distinct": r["distinct"], "depth": r["depth"], "wall_s": round(r["wall_s"], 1)}
     base = open(os.path.join(vlib.SPECS, "cfg", "Wal.exh.quick.cfg")).read()
-    devs = {}
     tmp = vlib.scratch("c01cfg")
     try:
-        for dev, inv in DEVS_MUST_FAIL.items():
-            p = os.path.join(tmp, "dev.cfg")
+        jobs = {}   # name -> (cfg path, workers)
+        jobs["main"] = (cfg, max(4, vlib.NCPU // 2))
+        jobs["drop"] = ("Wal.exh.drop.cfg", 4)
+        # DROP MEASUREMENT in the order of the pinned code (open finding F-C01-3) must break Durable
+        p = os.path.join(tmp, "devdrop.cfg")
+        open(p, "w").write(open(os.path.join(vlib.SPECS, "cfg", "Wal.exh.drop.cfg")).read().replace("Dev = {}", 'Dev = {"drop_files_after_log"}'))
+        jobs["dropdev"] = (p, 2)
+        for i, dev in enumerate(DEVS_MUST_FAIL):
+            p = os.path.join(tmp, f"dev{i}.cfg")
             open(p, "w").write(base.replace("Dev = {}", "Dev = " + dev))
-            rr = vlib.run_tlc("WalMC", p, timeout=900)
-            if rr["violated"] not in (inv if isinstance(inv, tuple) else (inv,)):
-                raise vlib.Infra(f"deviation {dev} should violate {inv} in Wal.tla but TLC says {rr['violated']} / {rr['error']}")
-            devs[dev] = rr["violated"]
+            jobs["dev:" + dev] = (p, 2)
+        for i, (dev, inv) in enumerate(DEVS_ISOLATED):
+            p = os.path.join(tmp, f"devi{i}.cfg")
+            lines = [l for l in base.replace("Dev = {}", "Dev = " + dev).splitlines() if not l.startswith(("PROPERTIES", "INVARIANTS"))]
+            lines.insert(-1, "INVARIANTS Durable" if inv == "Durable" else "PROPERTIES " + inv)
+            open(p, "w").write("\n".join(lines) + "\n")
+            jobs[f"alone:{dev}:{inv}"] = (p, 2)
+        # a few JVMs at a time with a bounded heap (the machine is shared): the two design runs first
+        with cf.ThreadPoolExecutor(4) as ex:
+            futs = {k: ex.submit(vlib.run_tlc, "WalMC", c, workers=w, timeout=3000) for k, (c, w) in jobs.items()}
+            res = {k: f.result() for k, f in futs.items()}
     finally:
         import shutil
         shutil.rmtree(tmp, ignore_errors=True)
+    r = res["main"]
+    vlib.tlc_must_pass(r, cfg)
+    stats = {"cfg": cfg, "generated": r["generated"], "distinct": r["distinct"], "depth": r["depth"], "wall_s": round(r["wall_s"], 1)}
+    devs = {}
+    for dev, inv in DEVS_MUST_FAIL.items():
+        rr = res["dev:" + dev]
+        if rr["violated"] not in (inv if isinstance(inv, tuple) else (inv,)):
+            raise vlib.Infra(f"deviation {dev} should violate {inv} in Wal.tla but TLC says {rr['violated']} / {rr['error']}")
+        devs[dev] = rr["violated"]
+    for dev, inv in DEVS_ISOLATED:
+        rr = res[f"alone:{dev}:{inv}"]
+        if rr["violated"] != inv:
+            raise vlib.Infra(f"deviation {dev} should violate {inv} checked alone but TLC says {rr['violated']} / {rr['error']}")
+        devs[f"{dev} ({inv} alone)"] = rr["violated"]
+    rr = res["dropdev"]
+    if rr["violated"] != "Durable":
+        raise vlib.Infra(f'deviation {{"drop_files_after_log"}} should violate Durable in Wal.tla (drop cfg) but TLC says {rr["violated"]} / {rr["error"]}')
+    devs['{"drop_files_after_log"}'] = rr["violated"]
     stats["deviations_caught"] = devs
     # the same design with DROP MEASUREMENT (no resurrection of a dropped measurement by recovery)
-    rd = vlib.run_tlc("WalMC", "Wal.exh.drop.cfg", timeout=3000)
+    rd = res["drop"]
     vlib.tlc_must_pass(rd, "Wal.exh.drop.cfg")
     stats["drop"] = {"cfg": "Wal.exh.drop.cfg", "generated": rd["generated"], "distinct": rd["distinct"], "depth": rd["depth"]}
     return stats
 
 
+def inside_flush(h):
+    """index (among the Flush steps, 1-based) of the first flush of history h that has a write started inside it
+    overwriting a cell of that flush's snapshot (both records are then in the log at once, the older one in the
+    file being flushed, the newer one in the next file of the partition); 0 if none"""
+    nf = 0
+    for i, st in enumerate(h):
+        if st["a"] != "Flush":
+            continue
+        nf += 1
+        prev = max([j for j in range(i) if h[j]["a"] == "Flush"], default=-1)
+        before = {x["k"] for x in h[prev + 1:i] if x["a"] == "Write"}   # the cells of this flush's snapshot
+        j = i + 1
+        while j < len(h) and h[j]["a"] == "Write" and h[j].get("at") not in (None, "idle", "-"):
+            if h[j]["k"] in before:
+                return nf
+            j += 1
+    return 0
+
+
+def with_warmup(h, ncycles):
+    """h preceded by ncycles (write, forced flush) cycles of the cell of its first write. The result is again a
+    behaviour of Wal.tla (with larger MaxW / MaxFlush); with one log partition the file sequence of that partition
+    then stands at ncycles + 1 when h begins. No crash image is taken during the warm-up ("pre")."""
+    first = next(x for x in h if x["a"] == "Write")
+    pre = []
+    for i in range(ncycles):
+        pre.append({"a": "Write", "w": 100 + i, "k": first["k"], "s": first["s"], "kind": "none", "at": "idle"})
+        pre.append({"a": "Flush", "w": 0, "k": "-", "s": "-", "kind": "auto" if i % 4 == 3 else "forced", "at": "-"})
+    return pre + h, len(pre)
+
+
 def gen_histories(tier, seed):
-    nsim = 120 if tier == "quick" else 800
-    r = vlib.run_tlc("WalMC", "Wal.sim.cfg", simulate=nsim, depth=80, seed=seed, timeout=1800)
+    """returns (cases without id/seed, stats)"""
+    nsim = 150 if tier == "quick" else 700
+    r = vlib.run_tlc("WalMC", "Wal.sim.cfg", simulate=nsim, depth=90, seed=seed, timeout=1800)
     vlib.tlc_must_pass(r, "Wal.sim.cfg")
     seen, out = set(), []
     for h in r["traces"]:
@@ -58,10 +136,46 @@ def gen_histories(tier, seed):
         if k not in seen and any(s["a"] == "Flush" for s in h):
             seen.add(k)
             out.append(h)
-    limit = 56 if tier == "quick" else 800
-    out = out[:limit]
+    # the export prints a history at two lengths: keep the longer one
+    keys = {json.dumps(h)[:-1] for h in out}
+    out = [h for h in out if not any(k != json.dumps(h)[:-1] and k.startswith(json.dumps(h)[:-1] + ",") for k in keys)]
+    limit = 48 if tier == "quick" else 400
+    # every kind of step the specification distinguishes must be among the histories that are kept: an automatic
+    # flush of a memtable holding a series that no earlier flush covered, a write started inside a flush
+    def feats(h):
+        f = set()
+        flushed = set()
+        pending = set()
+        for i, st in enumerate(h):
+            if st["a"] == "Write":
+                if st["s"] not in flushed:
+                    pending.add(st["s"])
+                if st.get("at") not in (None, "idle", "-"):
+                    f.add("inside")
+            elif st["a"] == "Flush":
+                if st["kind"] == "auto":
+                    f.add("auto")
+                    if pending:
+                        f.add("auto_new_series")
+                flushed |= pending
+                pending = set()
+        return f
+    rich = [h for h in out if {"auto_new_series", "inside"} <= feats(h)]
+    rest = [h for h in out if h not in rich]
+    plain = (rich[:limit // 2] + rest)[:limit]
+    cases = [{"hist": h} for h in plain]
+    # the same, behind a warm-up that puts the log-file sequence of the (single) partition right below a digit
+    # boundary: the flush with an overwriting write inside then has <9>.wal pending and <10>.wal live
+    nb = 12 if tier == "quick" else 80
+    nbound = 0
+    for h in out:
+        f = inside_flush(h)
+        if f and nbound < nb:
+            hh, pre = with_warmup(h, 9 - f)
+            cases.append({"hist": hh, "pre": pre, "parts": 1})
+            nbound += 1
     # histories with DROP MEASUREMENT of the measurement that holds cell k3
-    nd = 120 if tier == "quick" else 800
+    nd = 120 if tier == "quick" else 600
     r2 = vlib.run_tlc("WalMC", "Wal.sim.drop.cfg", simulate=nd, depth=90, seed=seed + 7, timeout=1800)
     vlib.tlc_must_pass(r2, "Wal.sim.drop.cfg")
     drops = []
@@ -74,25 +188,27 @@ def gen_histories(tier, seed):
         ds = [i for i, s_ in enumerate(h) if s_["a"] == "Drop"]
         if ws and ds and min(ws) < max(ds):
             drops.append(h)
-    dl = 16 if tier == "quick" else 300
-    out += drops[:dl]
-    return out, {"generated": r["generated"] + r2["generated"], "traces": len(r["traces"]) + len(r2["traces"]),
-                 "distinct_with_flush": len(out) - len(drops[:dl]), "with_drop": len(drops[:dl])}
+    dl = 16 if tier == "quick" else 150
+    cases += [{"hist": h} for h in drops[:dl]]
+    return cases, {"generated": r["generated"] + r2["generated"], "traces": len(r["traces"]) + len(r2["traces"]),
+                   "distinct_with_flush": len(plain), "with_auto_flush_of_new_series_and_inside_write": len([h for h in plain if h in rich]),
+                   "with_warmup_to_file_sequence_boundary": nbound, "with_drop": len(drops[:dl])}
 
 
 TRACE_CFG = """SPECIFICATION TraceSpec
 CONSTANTS
   N = %d
   Keys = {"k1", "k2", "k3"}
-  MaxW = 12
-  MaxFlush = 12
+  MaxW = 24
+  MaxFlush = 24
   MaxCrash = 0
   MaxInits = 4
   DropKeys = {}
   MaxDrop = 0
-  Dev = {"rr_from_0", "wal_remove_one_by_one"}
-INVARIANTS TypeOK WalBeforeAck
-PROPERTIES RemoveAfterRename
+  SeriesOpts = {{{"k1"}, {"k2"}, {"k3"}}}
+  Dev = {"rr_from_0", "wal_remove_one_by_one", "drop_files_after_log"}
+INVARIANTS TypeOK WalBeforeAck IndexOrLog FilesIndexed
+PROPERTIES RemoveAfterRename IndexBeforeWalRemove
 CONSTRAINT HighWater
 POSTCONDITION TraceAccepted
 CHECK_DEADLOCK FALSE
@@ -100,13 +216,16 @@ CHECK_DEADLOCK FALSE
 
 
 def validate_traces(runs, n):
-    """Mode C: runs = list of event lists recorded with n WAL partitions. Returns (accepted?, tlc result)."""
+    """Mode C: runs = list of (event list, cell -> series map) recorded with n WAL partitions.
+    Returns (accepted?, tlc result)."""
     tmp = vlib.scratch("c01trace")
     try:
         tp = os.path.join(tmp, "trace.ndjson")
         with open(tp, "w") as f:
-            for ev in runs:
-                f.write(json.dumps({"ev": "Reset"}) + "\n")
+            for ev, ser in runs:
+                full = {k: k for k in ("k1", "k2", "k3")}
+                full.update(ser or {})
+                f.write(json.dumps({"ev": "Reset", "ser": full}) + "\n")
                 for e in ev:
                     f.write(json.dumps(e) + "\n")
         cp = os.path.join(tmp, "TraceWal.cfg")
@@ -122,25 +241,36 @@ def validate_traces(runs, n):
 
 def mode_c(results):
     """validate the recorded event order of every run; returns (stats, list of rejected results)"""
-    stats = {"runs": 0, "events": 0, "tlc_states": 0}
+    stats = {"runs": 0, "events": 0, "tlc_states": 0, "index_flush_events": 0}
     rejected = []
     by_n = {}
     for r in results:
         if r.get("tev"):
             by_n.setdefault(r["parts"], []).append(r)
+    groups = []   # split big groups so that the TLC runs go in parallel
     for n, rs in sorted(by_n.items()):
-        ok, t = validate_traces([r["tev"] for r in rs], n)
+        per = max(1, (len(rs) + 3) // 4)
+        for i in range(0, len(rs), per):
+            groups.append((n, rs[i:i + per]))
+    def one(g):
+        n, rs = g
+        return validate_traces([(r["tev"], r.get("ser")) for r in rs], n)
+    with cf.ThreadPoolExecutor(max(1, min(len(groups), 6))) as ex:
+        outs = list(ex.map(one, groups))
+    for (n, rs), (ok, t) in zip(groups, outs):
         stats["runs"] += len(rs)
         stats["events"] += sum(len(r["tev"]) for r in rs)
+        stats["index_flush_events"] += sum(1 for r in rs for e in r["tev"] if e["ev"] == "IndexFlush")
         stats["tlc_states"] += t["distinct"]
         if not ok:   # find the offending run(s)
             for r in rs:
-                ok1, t1 = validate_traces([r["tev"]], n)
+                ok1, t1 = validate_traces([(r["tev"], r.get("ser"))], n)
                 if not ok1:
                     r2 = dict(r)
                     r2["ok"] = False
+                    why = t1["violated"] or ""
                     r2["detail"] = (f"recorded file-system event order of the write/flush path is not a behaviour of Wal.tla "
-                                    f"(TLC: {t1['violated']}; trace matched up to a prefix of {t1['distinct']} states): "
+                                    f"(TLC: {why}; trace matched up to a prefix of {t1['distinct']} states; series {r.get('ser')}): "
                                     + json.dumps(r["tev"])[:1500])
                     rejected.append(r2)
     return stats, rejected
@@ -160,10 +290,11 @@ def replay_cases(cases):
 def run(tier, seed):
     t0 = time.time()
     a = mode_a(tier)
-    hists, gstats = gen_histories(tier, seed)
-    if not hists:
+    gen, gstats = gen_histories(tier, seed)
+    if not gen:
         raise vlib.Infra("no histories generated")
-    cases = [{"id": i, "seed": seed, "hist": h, "thorough": tier == "thorough"} for i, h in enumerate(hists)]
+    cases = [dict(g, id=i, seed=seed, thorough=tier == "thorough") for i, g in enumerate(gen)]
+    hists = [c["hist"] for c in cases]
     results = replay_cases(cases)
     infra = [r for r in results if r.get("infra")]
     if infra:
@@ -179,7 +310,7 @@ def run(tier, seed):
     known = {}
     for r in results:
         for k, n in (r.get("known") or {}).items():
-            known.setdefault(k, [0, r.get("known_example", "")])
+            known.setdefault(k, [0, (r.get("known_examples") or {}).get(k) or r.get("known_example", "")])
             known[k][0] += n
     for k in list(known):
         if k not in open_ids:
@@ -200,6 +331,17 @@ def run(tier, seed):
             if k not in known:
                 raise vlib.Infra(f"open finding {k} was not re-observed in the thorough tier: known_findings.json must be updated")
     images = sum(r["images"] for r in results)
+    tot = lambda k: sum(r.get(k, 0) for r in results)
+    # vacuity guards: the behaviours this check exists for must have been executed
+    if not bad:
+        if tot("auto_flushes") == 0 or tot("auto_images") == 0:
+            raise vlib.Infra(f"no automatic (ticker-started) flush was performed / no crash image taken inside one "
+                             f"(auto_flushes={tot('auto_flushes')}, auto_images={tot('auto_images')})")
+        if tot("index_flushes") == 0:
+            raise vlib.Infra("no flush of the series index was observed by the recorder")
+        if tot("inside_writes") == 0 or tot("two_file_images") == 0:
+            raise vlib.Infra(f"no write was executed inside a flush / no image with two live log files in one partition "
+                             f"(inside_writes={tot('inside_writes')}, two_file_images={tot('two_file_images')})")
     cov = {
         "states": a["distinct"] + a["drop"]["distinct"], "transitions": a["generated"] + a["drop"]["generated"],
         "traces_validated_against_impl": len(results),
@@ -214,6 +356,11 @@ def run(tier, seed):
         "torn_tail_images": sum(r["torn"] for r in results),
         "fs_events": sum(r["events"] for r in results),
         "index_inconclusive": sum(r.get("index_inconclusive", 0) for r in results),
+        "automatic_flushes_performed": tot("auto_flushes"), "forced_flushes_performed": tot("forced_flushes"),
+        "images_inside_automatic_flushes": tot("auto_images"),
+        "writes_inside_a_flush": tot("inside_writes"),
+        "images_with_two_log_files_in_a_partition": tot("two_file_images"),
+        "index_flushes_observed": tot("index_flushes"), "images_after_index_file_operations": tot("index_images"),
         "known_findings_crash_points": {k: v[0] for k, v in known.items()},
         "tlc": {"exhaustive": a, "generator": gstats},
         "trace_validation": cstats,
@@ -223,9 +370,41 @@ def run(tier, seed):
         "process-kill semantics: the directory tree at the crash instant is the image (no loss of un-synced pages)",
         "single sequential client, so acknowledgement order is well defined",
         "series-index image taken by repeated copy until quiescent; images whose index cannot be opened are counted as inconclusive",
+        "the harness never flushes the series index of the live engine; an image holds what the engine's own index flushes had made durable",
+        "a write inside a flush runs entirely while the flush is held before one of its file operations (one of the interleavings of the specification)",
         "TLC bounds as in the cfg files named under coverage.tlc",
     ])
     return 1 if bad else 0
+
+
+def selftest(seed):
+    """negative controls of the trace specification (Mode C): a correct event sequence of one write and one automatic
+    flush of a new series is accepted; the same sequence with one step dropped, displaced or altered is rejected"""
+    ser = {"k1": "k1", "k2": "k2", "k3": "k3"}
+    W = [{"ev": "WriteMem", "k": "k1"}, {"ev": "WriteWal", "p": 1}, {"ev": "Ack"}]
+    F = lambda kind, idx=True: ([{"ev": "FlushSwitch", "kind": kind}] + ([{"ev": "IndexFlush"}] if idx else []) +
+                                [{"ev": "FlushInit"}, {"ev": "FlushRename"}, {"ev": "FlushRemoveWal", "p": 1}, {"ev": "FlushEnd"}])
+    good = {"auto flush": W + F("auto"), "forced flush": W + F("forced"),
+            "index already flushed in the background": W + [{"ev": "IndexFlush"}] + F("auto", idx=False),
+            "write inside the flush": W + F("auto")[:3] + [{"ev": "WriteMem", "k": "k2"}, {"ev": "WriteWal", "p": 2}, {"ev": "Ack"}] + F("auto")[3:]}
+    a = F("auto")
+    bad = {"index flush missing in an automatic flush of a new series": W + F("auto", idx=False),
+           "index flush missing in a forced flush of a new series": W + F("forced", idx=False),
+           "index flush after the log removal": W + [a[0], a[2], a[3], a[4], a[1], a[5]],
+           "record in the wrong partition": [W[0], {"ev": "WriteWal", "p": 2}, W[2]] + a,
+           "rename dropped": W + [a[0], a[1], a[2], a[4], a[5]],
+           "log removed before the rename": W + [a[0], a[1], a[2], a[4], a[3], a[5]],
+           "acknowledged before the log record": [W[0], W[2], W[1]] + a}
+    rc = 0
+    for name, ev in good.items():
+        ok, t = validate_traces([(ev, ser)], 2)
+        print(f"selftest C01 trace '{name}': {'accepted' if ok else 'REJECTED (' + str(t['violated']) + ')'}")
+        rc |= 0 if ok else 2
+    for name, ev in bad.items():
+        ok, t = validate_traces([(ev, ser)], 2)
+        print(f"selftest C01 trace '{name}': {'ACCEPTED' if ok else 'rejected (' + str(t['violated']) + ')'}")
+        rc |= 2 if ok else 0
+    return rc
 
 
 def replay(path, seed):
